@@ -16,7 +16,8 @@ RULE = ("A fresh class tree per case (2-7 classes created with type() under Agen
         "untouched bases) and EVERY instance is compared: Cls[T], T in Cls, has_class_component (all-of), len(Cls), Cls.tag, "
         "instance.tag, instance.components. Non-trivial: a class-level change on a class that has a parent/child/sibling "
         "in the tree AND an instance of a non-base class created without explicit tag after that class' default tag "
-        "changed. Distinct = digest of the case.")
+        "changed. Distinct = digest of the case."
+        " Added in rounds 19-24: classes re-created from another class's namespace; the model may be marked complete; the first class of a tree may be a plug-in style base whose __init_subclass__ does not chain up.")
 ASSUMPTIONS = ["a class created later starts with no class components and default tag NONE (0), whatever its parent holds",
                "Environment subclasses are instantiated through their own constructors (no explicit tag possible)"]
 
